@@ -118,6 +118,20 @@ struct Action {
 
 std::string show_action(Action const& x) { return cat(kind_name(x.k), "(", x.a, ",", x.b, ",", x.c, ")"); }
 
+// position / count menus: everything for small capacities, the boundary set for large ones
+inline std::vector<int> span_of(int lo, int hi, bool sparse)
+{
+    std::vector<int> v;
+    if (!sparse || hi - lo <= 6) {
+        for (int i = lo; i <= hi; ++i) { v.push_back(i); }
+        return v;
+    }
+    for (int i : {lo, lo + 1, (lo + hi) / 2, hi - 1, hi}) {
+        if (v.empty() || v.back() != i) { v.push_back(i); }
+    }
+    return v;
+}
+
 // the pool of external source ranges: all sequences of length <= L over {1..K}
 inline std::vector<std::vector<int>> const& pool(int K, int L)
 {
@@ -182,8 +196,9 @@ struct StaticVectorSys {
 
     void unary(State const& st, std::vector<Action>& out) const
     {
-        int const s = int(st.m.size());
-        int const n = int(N);
+        int const s       = int(st.m.size());
+        int const n       = int(N);
+        bool const sparse = N > 8;
         for (int v = 1; v <= K; ++v) {
             if (s < n) {
                 if constexpr (copyable<T>) { out.push_back({push_back_l, v, 0, 0}); }
@@ -192,12 +207,13 @@ struct StaticVectorSys {
             }
         }
         if (s > 0) { out.push_back({pop_back_k, 0, 0, 0}); }
+        auto const elems = s > 0 ? span_of(0, s - 1, sparse) : std::vector<int>{};
         if constexpr (copyable<T>) {
             if (s < n) {
-                for (int i = 0; i < s; ++i) { out.push_back({push_back_own, i, 0, 0}); }
+                for (int i : elems) { out.push_back({push_back_own, i, 0, 0}); }
             }
         }
-        for (int p = 0; p <= s; ++p) {
+        for (int p : span_of(0, s, sparse)) {
             if (s < n) {
                 for (int v = 1; v <= K; ++v) {
                     if constexpr (copyable<T>) { out.push_back({insert_l, p, v, 0}); }
@@ -205,13 +221,13 @@ struct StaticVectorSys {
                     out.push_back({emplace_k, p, v, 0});
                 }
                 if constexpr (copyable<T>) {
-                    for (int i = 0; i < s; ++i) { out.push_back({insert_own, p, i, 0}); }
+                    for (int i : elems) { out.push_back({insert_own, p, i, 0}); }
                 }
             }
             if constexpr (copyable<T>) {
-                for (int cnt = 0; cnt <= n - s; ++cnt) {
+                for (int cnt : span_of(0, n - s, sparse)) {
                     for (int v = 1; v <= K; ++v) { out.push_back({insert_n, p, cnt, v}); }
-                    for (int i = 0; i < s; ++i) { out.push_back({insert_n_own, p, cnt, i}); }
+                    for (int i : elems) { out.push_back({insert_n_own, p, cnt, i}); }
                 }
                 auto const& pl = pool(K, pool_len);
                 for (int i = 0; i < int(pl.size()); ++i) {
@@ -219,11 +235,11 @@ struct StaticVectorSys {
                 }
             }
         }
-        for (int p = 0; p < s; ++p) { out.push_back({erase_1, p, 0, 0}); }
-        for (int f = 0; f <= s; ++f) {
-            for (int l = f; l <= s; ++l) { out.push_back({erase_range, f, l, 0}); }
+        for (int p : elems) { out.push_back({erase_1, p, 0, 0}); }
+        for (int f : span_of(0, s, sparse)) {
+            for (int l : span_of(f, s, sparse)) { out.push_back({erase_range, f, l, 0}); }
         }
-        for (int cnt = 0; cnt <= n; ++cnt) {
+        for (int cnt : span_of(0, n, sparse)) {
             out.push_back({resize_k, cnt, 0, 0});
             if constexpr (copyable<T>) {
                 for (int v = 1; v <= K; ++v) {
@@ -233,6 +249,13 @@ struct StaticVectorSys {
                 }
             }
             out.push_back({ctor_n, cnt, 0, 0});
+        }
+        if (sparse && s > 0 && s < n) {
+            // around the current size as well (the size-type boundary sits next to it)
+            for (int cnt : {s - 1, s + 1}) {
+                out.push_back({resize_k, cnt, 0, 0});
+                if constexpr (copyable<T>) { out.push_back({resize_v, cnt, 1, 0}); }
+            }
         }
         if constexpr (copyable<T>) {
             auto const& pl = pool(K, pool_len);
@@ -1261,6 +1284,27 @@ void explore(mc::Reporter& r, std::size_t maxStates, std::size_t maxDepth, A... 
     ex.run();
 }
 
+// capacity at the size-type boundary (254/255/256): depth-bounded exploration from the seed
+// states {N-2, N-1, N elements} (element i has value 1 + i % 2); closure is out of reach here,
+// the evidence says so (exhaustive:false)
+template <typename Sys>
+void explore_boundary(mc::Reporter& r, std::size_t n, int fillKind, std::size_t depth, Sys sys)
+{
+    mc::ExploreLimits lim;
+    lim.max_states          = 200000;
+    lim.max_depth           = depth;
+    lim.max_partners        = 12;
+    lim.poison_differential = false;
+    mc::Explorer<Sys> ex(sys, r, lim);
+    for (std::size_t fill : {n - 2, n - 1, n}) {
+        std::vector<Action> h;
+        for (std::size_t i = 0; i < fill; ++i) { h.push_back(Action{fillKind, int(1 + i % 2), 0, 0}); }
+        ex.seeds.push_back(std::move(h));
+    }
+    ex.run();
+    r.not_exhaustive("capacity at the size-type boundary: depth-bounded from seed states, not a closure");
+}
+
 using TCM = mc::Tracked<mc::copy_move>;
 using TMO = mc::Tracked<mc::move_only>;
 using TCO = mc::Tracked<mc::copy_only>;
@@ -1276,6 +1320,29 @@ void add_iv(mc::Main& m, std::vector<std::string> tiers)
 {
     m.job(cat("inplace_vector<", tname<T>(), ",", N, ">/k", K), tiers,
         [=](mc::Reporter& r) { explore<InplaceVectorSys<T, N, K>>(r, 3000000, 1000); });
+}
+template <typename T, std::size_t N>
+void add_boundary(mc::Main& m)
+{
+    m.job(cat("static_vector<", tname<T>(), ",", N, ">/boundary"), {"quick", "thorough"}, [=](mc::Reporter& r) {
+        explore_boundary(r, N, emplace_back_k, r.thorough() ? 2 : 1, StaticVectorSys<T, N, 2>{1});
+    });
+    m.job(cat("inplace_vector<", tname<T>(), ",", N, ">/boundary"), {"quick", "thorough"}, [=](mc::Reporter& r) {
+        std::vector<Action> pre{Action{reinit_value, 0, 0, 0}};
+        mc::ExploreLimits lim;
+        lim.max_states          = 200000;
+        lim.max_depth           = r.thorough() ? 3 : 2;
+        lim.poison_differential = false;
+        InplaceVectorSys<T, N, 2> sys;
+        mc::Explorer<InplaceVectorSys<T, N, 2>> ex(sys, r, lim);
+        for (std::size_t fill : {N - 2, N - 1, N}) {
+            std::vector<Action> h = pre;
+            for (std::size_t i = 0; i < fill; ++i) { h.push_back(Action{unchecked_emplace_back_k, int(1 + i % 2), 0, 0}); }
+            ex.seeds.push_back(std::move(h));
+        }
+        ex.run();
+        r.not_exhaustive("capacity at the size-type boundary: depth-bounded from seed states, not a closure");
+    });
 }
 template <typename T, std::size_t N, int K>
 void add_st(mc::Main& m, std::vector<std::string> tiers)
@@ -1338,6 +1405,13 @@ int main(int argc, char** argv)
     add_st<TMO, 3, 2>(m, both);
     add_st<int, 5, 3>(m, th);
     add_st<TCM, 4, 3>(m, th);
+#endif
+#if !defined(MC_PART) || MC_PART == 5
+    add_boundary<int, 254>(m);
+    add_boundary<int, 255>(m);
+    add_boundary<int, 256>(m);
+    add_boundary<TCM, 255>(m);
+    add_boundary<TCM, 256>(m);
 #endif
     return m.run();
 }
